@@ -45,7 +45,7 @@ fn strategy() -> BoxedStrategy<Case> {
         eps,
         1usize..=4,
         proptest::bool::weighted(0.7),
-        prop_oneof![3 => Just(0u8), 1 => Just(1u8), 1 => Just(2u8)],
+        prop_oneof![6 => Just(0u8), 2 => Just(1u8), 2 => Just(2u8), 1 => Just(3u8)],
         prop_oneof![3 => Just(1.0f64), 1 => 1.0f64..4.0],
         any::<u64>(),
         (any::<u64>(), prop_oneof![3 => Just(0u8), 2 => 1u8..8]),
@@ -246,7 +246,10 @@ pub fn check_row(spec: &Spec, rec: &HmcStepRecord, row: usize, eps: f64, l: usiz
     let sens = |pt: &[f64], g: &[f64], lp: f64| 200.0 * eps_lp * (lp.abs() + 1.0 + pt.iter().zip(g).map(|(a, b)| (a * b).abs()).sum::<f64>() * 2.0 + spec_quad_scale(spec, pt));
     let tol_lx = sens(x, &gx, lp_x);
     let tol_lxp = sens(xp, &gxp, lp_xp);
-    if lp_x.is_finite() && tol_lx.is_finite() {
+    // magnitudes the f32 backend cannot hold (the f64 reference can): the library then works with
+    // +-inf / NaN where the reference sees finite numbers
+    let beyond_backend = |v: f64| eps_b > 1e-10 && !(v.abs() < 1e36);
+    if lp_x.is_finite() && tol_lx.is_finite() && !beyond_backend(lp_x) {
         ensure!(
             (rec.logp_current[row] - lp_x).abs() <= tol_lx,
             "hmc-logp-current",
@@ -260,8 +263,21 @@ pub fn check_row(spec: &Spec, rec: &HmcStepRecord, row: usize, eps: f64, l: usiz
     let dh = (-lp_x + ke) - (-lp_xp + kep);
     let ln_u = u.ln();
     let tol_h = tol_lx + if tol_lxp.is_finite() { tol_lxp } else { 0.0 } + 50.0 * eps_lp * (ke + kep);
-    let decided = if dh.is_nan() || dh == f64::NEG_INFINITY || !tol_h.is_finite() {
-        if dh.is_nan() || dh == f64::NEG_INFINITY {
+    let decided = if dh.is_finite() && (beyond_backend(lp_x) || beyond_backend(lp_xp) || beyond_backend(ke) || beyond_backend(kep)) {
+        cov.class("energy-beyond-f32-range(decision-not-asserted)");
+        None
+    } else if rec.logp_proposed[row].is_nan() || pp.iter().any(|v| v.is_nan()) {
+        // the library's own H(x',p') is NaN: ln u <= NaN is false for every u, u = 0 included
+        cov.class("library-side-NaN-energy(must-stay)");
+        Some(false)
+    } else if dh.is_nan() || dh == f64::NEG_INFINITY || !tol_h.is_finite() {
+        if (dh == f64::NEG_INFINITY || dh.is_nan()) && u == 0.0 {
+            // ln u = -inf <= -inf holds, on a proposal of infinite energy; and whether an
+            // overflowing energy evaluates to -inf or to NaN (inf - inf) depends on the order of
+            // operations inside the target: not asserted either way
+            None
+        } else if dh.is_nan() || dh == f64::NEG_INFINITY {
+            // (a comparison with NaN is false for every u, u = 0 included)
             Some(false)
         } else {
             None
@@ -339,6 +355,8 @@ where
         match c.umode {
             1 => 1e-30,
             2 => 1.0 - 1e-7,
+            // the smallest draw a generator can return: ln u = -inf
+            3 => 0.0,
             _ => rng.unif(),
         }
     };
@@ -433,6 +451,9 @@ where
     });
     cov.class(c.spec.name());
     cov.class(if c.inject { "injected" } else { "natural-draws" });
+    if c.inject && c.umode == 3 {
+        cov.class("u=0-exactly(ln u = -inf)");
+    }
     if nontrivial {
         cov.nontrivial_u64(fingerprint(c));
     }
